@@ -447,6 +447,8 @@ pub struct Cfg {
     pub fs_seed: u64,
     /// disk capacity in bytes (None = unlimited)
     pub capacity: Option<u64>,
+    /// O_DIRECT alignment (None = default 512)
+    pub dio_align: Option<u64>,
 }
 
 impl Default for Cfg {
@@ -458,6 +460,7 @@ impl Default for Cfg {
             page_cache: false,
             fs_seed: 1,
             capacity: None,
+            dio_align: None,
         }
     }
 }
@@ -471,6 +474,7 @@ impl Cfg {
             "page_cache": self.page_cache,
             "fs_seed": self.fs_seed,
             "capacity": self.capacity,
+            "dio_align": self.dio_align,
         })
     }
     pub fn from_json(v: &serde_json::Value) -> Cfg {
@@ -481,6 +485,7 @@ impl Cfg {
             page_cache: v["page_cache"].as_bool().unwrap_or(false),
             fs_seed: v["fs_seed"].as_u64().unwrap_or(1),
             capacity: v["capacity"].as_u64(),
+            dio_align: v["dio_align"].as_u64(),
         }
     }
     pub fn fs_config(&self) -> FsConfig {
@@ -502,6 +507,9 @@ impl Cfg {
         }
         if let Some(cap) = self.capacity {
             c.capacity(cap);
+        }
+        if let Some(a) = self.dio_align {
+            c.direct_io_alignment(a);
         }
         c
     }
